@@ -95,7 +95,7 @@ def run_alias(ctx):
 def correspond(ctx):
     corr.ensure_driver()
     rng = ctx.rng
-    n = 140 if not ctx.thorough else 900
+    n = 600 if not ctx.thorough else 4000
     groups = []
     for i in range(n):
         g = prefix_grammar(rng) if i % 2 == 0 else gen.rand_grammar(rng, rng.randint(3, 5), dict(actions=True, stops=True, fatal=(i % 5 == 0)))
